@@ -197,7 +197,11 @@ impl CollectionVarInt {
             num += ptr[3] as u32;
             num <<= 8;
             num += ptr[4] as u32;
-            num += Self::THR_4;
+            // The encoder never writes a payload this large (it encodes num - THR_4 for a u32 num);
+            // a corrupt stream can, and the sum would overflow u32 (panic with overflow checks, wrap without)
+            let num = num
+                .checked_add(Self::THR_4)
+                .context("Invalid 5-byte varint: value exceeds u32")?;
             *ptr = &ptr[5..];
             Ok(num)
         }
